@@ -156,6 +156,16 @@ class _Direct:
         elif k == 'aggfilter':
             c = self.b(t[1])
             x = ir.AggFilter(c, self.b(t[2]), self.agg == 'scan')
+        elif k in ('sagg', 'sscan'):
+            _, bid, arr, body = t
+            self.vtypes[bid] = self.types['i']
+            a = self.stream(self.b(arr))
+            outer, self.agg = self.agg, ('agg' if k == 'sagg' else 'scan')
+            try:
+                bd = self.b(body)
+            finally:
+                self.agg = outer
+            x = ir.StreamAgg(a, _name(bid, self.salt), bd) if k == 'sagg' else ir.ToArray(ir.StreamAggScan(a, _name(bid, self.salt), bd))
         else:
             raise AssertionError(t)
         self.done.append(x)
@@ -253,6 +263,19 @@ class _Api:
             m = hl.agg if self.agg == 'agg' else hl.scan
             c = self.b(t[1])
             x = m.filter(c, self.b(t[2]))
+        elif k in ('sagg', 'sscan'):
+            _, bid, arr, body = t
+            a = self.b(arr)
+
+            def f(y, bid=bid, body=body, k=k):
+                self.vars[bid] = y
+                outer, self.agg = self.agg, ('agg' if k == 'sagg' else 'scan')
+                try:
+                    return self.b(body)
+                finally:
+                    self.agg = outer
+
+            x = a.aggregate(f) if k == 'sagg' else a._to_stream()._aggregate_scan(f).to_array()
         else:
             raise AssertionError(t)
         self.done.append(x)
@@ -373,7 +396,20 @@ def _o_tagg(x, lit, env, agg, scan):
     return ev_obj(x.query, lit, {'global': g}, [{'global': g, 'row': r} for r in t['rows']], None)
 
 
+def _o_streamagg(x, lit, env, agg, scan):
+    rows = [{**env, x.value_name: e} for e in ev_obj(x.a, lit, env, agg, scan)]
+    return ev_obj(x.body, lit, env, rows, None)
+
+
+def _o_streamaggscan(x, lit, env, agg, scan):
+    a = list(ev_obj(x.a, lit, env, agg, scan))
+    rows = [{**env, x.value_name: e} for e in a]
+    return [ev_obj(x.body, lit, rows[i], None, rows[:i]) for i in range(len(a))]
+
+
 _OBJ = {
+    'StreamAgg': _o_streamagg,
+    'StreamAggScan': _o_streamaggscan,
     'I32': lambda x, lit, env, agg, scan: lit.get(x.x, x.x),
     'TrueIR': lambda x, lit, env, agg, scan: True,
     'FalseIR': lambda x, lit, env, agg, scan: False,
@@ -474,15 +510,21 @@ def ev_term(term, lit, agg=None):
         if k == 'len':
             return len(w(t[1], env, rows))
         if k == 'aggmax':
-            return R._aggop('Max', [[w(t[1], {E.ROW: r}, None)] for r in rows])
+            return R._aggop('Max', [[w(t[1], r, None)] for r in rows])
         if k == 'aggfilter':
-            return w(t[2], env, [r for r in rows if w(t[1], {E.ROW: r}, None)])
+            return w(t[2], env, [r for r in rows if w(t[1], r, None)])
+        if k == 'sagg':
+            return w(t[3], env, [{**env, t[1]: e} for e in w(t[2], env, rows)])
+        if k == 'sscan':
+            a = w(t[2], env, rows)
+            rs = [{**env, t[1]: e} for e in a]
+            return [w(t[3], rs[i], rs[:i]) for i in range(len(a))]
         raise AssertionError(t)
 
     if agg == 'agg':
-        return w(term, {}, list(range(NROWS)))
+        return w(term, {}, [{E.ROW: r} for r in range(NROWS)])
     if agg == 'scan':
-        return {'global': {}, 'rows': [{'idx': i, 'x': w(term, {E.ROW: i}, list(range(i)))} for i in range(NROWS)]}
+        return {'global': {}, 'rows': [{'idx': i, 'x': w(term, {E.ROW: i}, [{E.ROW: r} for r in range(i)])} for i in range(NROWS)]}
     return w(term, {}, None)
 
 
